@@ -37,6 +37,10 @@ def make(kind, rng):
         return torch.nn.Linear(rng.randrange(1, 4), rng.randrange(1, 4))
     if kind == "sequential":
         return torch.nn.Sequential(torch.nn.Linear(2, 3), torch.nn.ReLU(), torch.nn.Linear(3, 1))
+    if kind == "deep_module":      # > 256 memo entries: the pickler switches to LONG_BINPUT
+        return torch.nn.Sequential(*[torch.nn.Linear(3, 3) for _ in range(14)])
+    if kind == "many_tensors":
+        return [torch.full((2,), float(i)) for i in range(60)]
     if kind == "state_dict":
         return torch.nn.Linear(3, 2).state_dict()
     if kind == "nested":
